@@ -1,54 +1,34 @@
-TECHNIQUE = ('bounded symbolic execution of LLVM IR lowered to C: CBMC/SAT (cadical), sequential history harness on the '
-             'real ThreadPool with virtual workers (the harness calls the real consumer functions)')
-ASSUMPTIONS = [
-    'moodycamel::ConcurrentQueue replaced by its contract model (shim/moodycamel, bounded FIFO)',
-    'detail::alignedMalloc/alignedFree replaced by their contract (typed fresh block)',
-    'std::thread start/join modelled: pool threads never run by themselves; the harness performs a worker\'s or '
-    'waiter\'s consumption by calling the same real functions (tryExecuteNext, tryExecuteNextFromRings, '
-    'TaskSet::wait, threadLoopImpl)',
-]
-OUTSIDE = ('API-call granularity: each API call of the history is atomic (interleavings inside the functions are outside); '
-           'histories other than the listed scenario shapes (the shapes are fixed, their parameters - resize target, '
-           'which consumer acts, which worker sleeps - are symbolic); pool sizes > 2; steal-ring sharing 1 and spin '
-           'limits 1/2 are configuration bounds')
+# C01 uses the history harness and the instance builder of C08 (harness/C08/hist.cpp, harness/C08/spec.py) with the
+# per-id ledger (VF_ONCE) and the real ~ThreadPool at the end of every history.
+import os
+import importlib.util
 
-_SRC = ['dispenso/thread_pool.cpp', 'dispenso/thread_pool_wake.cpp', 'dispenso/detail/per_thread_info.cpp',
-        'dispenso/task_set.cpp']
-_R16 = '_ZN8dispenso21ConcurrentObjectArenaINS_14MpmcRingBufferINS_12OnceFunctionELm16ELb1EEEmLm64EE7grow_byEm.4'
-_R4 = '_ZN8dispenso21ConcurrentObjectArenaINS_14MpmcRingBufferINS_12OnceFunctionELm4ELb1EEEmLm64EE7grow_byEm.4'
-_SCN = {
-    1: 'TaskSet::scheduleBulk(N) ring fast path; optional waiter steal (tryExecuteNextFromRings); resize(n\' != N, '
-       'n\' in 0..2 symbolic); ~TaskSet; schedule(FQ); waiter drain; ~ThreadPool',
-    2: 'worker w (symbolic) parks via enterSleep; schedulePlaced(FQ) claims it and pushes to its steal ring; then '
-       'symbolically either the worker runs the real threadLoopImpl (task stops it) or resize(n\' != N); ~ThreadPool',
-    3: 'schedule, schedule(FQ), scheduleBulk(2) ; optional waiter drain; resize(n\' != N symbolic); schedule, '
-       'schedulePlaced; waiter drain; ~ThreadPool',
-    4: 'three schedule(FQ) then a virtual worker runs the real threadLoopImpl<true> (batched decrement), the last '
-       'task stops it; ~ThreadPool',
-}
+_p = os.path.join(os.path.dirname(os.path.abspath(__file__)), '..', 'C08', 'spec.py')
+_s = importlib.util.spec_from_file_location('c08_spec', _p)
+_c08 = importlib.util.module_from_spec(_s)
+_s.loader.exec_module(_c08)
+
+TECHNIQUE = _c08.TECHNIQUE
+ASSUMPTIONS = _c08.ASSUMPTIONS
+OUTSIDE = _c08.OUTSIDE + ('; more than one producer thread and interleavings inside the API calls (covered for the '
+                          'rings by C34 and for park/wake by C07/C09 kernels)')
+_END = '; then the real ~ThreadPool; per-id ledger: never run twice, exactly once after the destructor'
 
 
-def inst(scn, n, tiers, prop='VF_ONCE'):
-    return {
-        'name': 'scn%d_n%d' % (scn, n), 'src': '../C08/hist.cpp', 'engine': 'cbmc', 'shims': ['moodycamel'],
-        'repo_sources': _SRC, 'rt_defs': {'VF_HAVE_THREAD_MODEL': 1}, 'models': ['aligned_alloc'],
-        'native_extra': ['harness/C47/native_stubs.cpp'],
-        'allow_externals': ['_ZN8dispenso6detail27registerFineSchedulerQuantaEv', '_ZN8dispenso6detail20allocSmallBufferImplEm', '_ZN8dispenso6detail22deallocSmallBufferImplEmPv'],
-        'defs': {'VF_N': n, 'VF_SCN': scn, 'VF_MQ_CAP': 6, prop: 1},
-        'cflags': ['-DDISPENSO_TUNE_STEAL_RING_SHARING=1', '-DDISPENSO_TUNE_FIXED_SPIN_ITERS=2',
-                   '-DDISPENSO_TUNE_SPIN_CHECK_INTERVAL=1', '-DDISPENSO_TUNE_QUEUE_CHECK_INTERVAL=1'],
-        'unwind': 6, 'nthreads': 3, 'unwindset': {_R16: 17, _R4: 5}, 'timeout': 900, 'tiers': tiers,
-        'bounds': 'ThreadPool(%d), model queue capacity 6, steal-ring capacity 4; history: %s' % (n, _SCN[scn]),
-    }
+def inst(kind, n, tiers, **kw):
+    return _c08.inst(kind, n, tiers, prop='VF_ONCE', end=_END, **kw)
 
 
 INSTANCES = [
-    inst(1, 1, ['quick', 'thorough']),
-    inst(2, 1, ['quick', 'thorough']),
-    inst(3, 1, ['quick', 'thorough']),
-    inst(4, 1, ['quick', 'thorough']),
-    inst(3, 0, ['quick', 'thorough']),
-    inst(1, 2, ['thorough']),
-    inst(2, 2, ['thorough']),
-    inst(3, 2, ['thorough']),
+    inst('central', 0, ['quick', 'thorough'], rt=1, choice=1),
+    inst('worker', 1, ['quick', 'thorough']),
+    inst('overflow', 1, ['quick', 'thorough'], choice=0),
+    inst('ring_resize', 1, ['quick', 'thorough'], rt=2, choice=0),
+    inst('central', 1, ['thorough'], rt=2),
+    inst('steal_resize', 1, ['thorough'], rt=0),
+    inst('steal_worker', 1, ['thorough']),
+    inst('overflow', 1, ['thorough']),
+    inst('ring_resize', 1, ['thorough']),
+    inst('central', 2, ['thorough']),
+    inst('ring_resize', 2, ['thorough']),
 ]
